@@ -747,23 +747,23 @@ def check_spellings(case):
 
 FACETS = [
     Facet("wrapper_near_earth", case_strategy("near", ("direct", "direct", "timedelta")), check_wrapper, setup=_eop,
-          rule="|offset| > 1 min, reference error code 0", quick=(6, 700), thorough=(16, 8000)),
+          rule="|offset| > 1 min, reference error code 0", quick=(6, 500), thorough=(16, 8000)),
     Facet("wrapper_deep_space", case_strategy("deep", ("direct", "direct", "timedelta")), check_wrapper, setup=_eop,
-          rule="|offset| > 1 min, reference error code 0", quick=(6, 600), thorough=(16, 7000)),
+          rule="|offset| > 1 min, reference error code 0", quick=(6, 450), thorough=(16, 7000)),
     Facet("native", case_strategy("native", ("direct", "direct", "timedelta")), check_native, setup=_eop,
           rule="|offset| > 1 min, reference in its full near-Earth model (method n, perigee >= 220 km)",
-          quick=(6, 700), thorough=(16, 8000)),
+          quick=(6, 500), thorough=(16, 8000)),
     Facet("wrapper_via_orbit_copy", case_strategy("any", ("copy", "form", "rebind", "twice"), pair=True),
           check_wrapper, setup=_eop,
           rule="|offset| > 1 min; the orbit is copied, converted, or shares its propagator before propagating",
-          quick=(6, 400), thorough=(16, 4000)),
+          quick=(6, 300), thorough=(16, 4000)),
     Facet("spellings", lambda shard, tier: spelling_case(), check_spellings, setup=_eop,
           rule="at least one state compared; same element set and instant said another way: label of the target "
                "date and of the orbit's date (6 scales), target within 140 s of a UTC midnight / turn of the year / "
                "leap-second midnight, orbit from text / lines / from_orbit / from_string / pickled Tle, held in 7 "
                "forms and 2 frames, cloned 5 ways (fresh or initialised), asked by Date / timedelta / iter / ephem, "
                "Sgp4 and Sgp4Beta",
-          quick=(8, 250), thorough=(16, 5000)),
+          quick=(8, 200), thorough=(16, 5000)),
     Facet("history", lambda shard, tier: history_case(), check_history, setup=_eop,
           rule=">= 3 states compared and >= 2 propagator objects attached at the end; after every operation "
                "each attached propagator (Sgp4 and Sgp4Beta, 2-3 objects each, 2-3 element sets) must return the "
